@@ -12,7 +12,7 @@ ALGOS = ["MD5", "SHA-1", "SHA-256", "SHA-384", "SHA-512"]
 BADALGOS = ["sha256", "SHA256", "SHA-224", "BLAKE2B", "MD-5", "dou_algo"]
 # further unsupported names, tried at creation only: fragments and joins of the accepted names, stray whitespace
 FRESH_BAD = ["SHA-25", "SHA", "MD", "5", "-", "", "SHA-256 ", " MD5", "MD5, SHA-1", "sha-256", "SHA-1\n"]
-NSS = ["https://ns.dataone.org/service/types/v2.0#SystemMetadata", "ns2"]
+NSS = ["https://ns.dataone.org/service/types/v2.0#SystemMetadata", "ns2 #v2: x"]      # the second one needs quoting in YAML
 D1, W1, A1, N1 = z3.Int("c_depth"), z3.Int("c_width"), z3.Int("c_algo"), z3.Int("c_ns")
 D2, W2, A2, N2 = z3.Int("r_depth"), z3.Int("r_width"), z3.Int("r_algo"), z3.Int("r_ns")
 ED, EW, POP, SHAPE = z3.Int("enc_depth"), z3.Int("enc_width"), z3.Bool("populated"), z3.Int("shape")
